@@ -248,7 +248,7 @@ def check_pages(doc, p, control_doc=None):
                                          name=pr["name"], expected=f"result({pr['ret']['name']})", got=t))
         # return values
         from harness.gen import c18decl as G
-        cands = [f"integer(kind={pr['ret']['kind']})" for pr in p["procs"] if pr["ret"]]
+        cands = [pr["ret"]["typ"] for pr in p["procs"] if pr["ret"]]
         isite = None
         if p["iface"]:
             cands.append(G.iface_ret_text(p["iface"]))
